@@ -324,6 +324,10 @@ def r12_2(ctx):
                 elif not good_pred or compared is None or origin is None:
                     ctx.undecided(R, 'hit-condition', 'a hit is decided by a local predicate / the address is read after the MRU move in a form the rule does not follow: %s' % fmt(addr)[:80], fn=f)
                     continue
+        if not ok and cell is None and any(is_call(x, '::find_map') or is_call(x, '::find') or is_call(x, '::filter_map') for x in walk(addr)):
+            # the address travels out of an iterator search as part of its result ((index, addr) from find_map): a form the rule does not follow
+            ctx.undecided(R, 'hit-condition', 'the address of a hit is produced inside an iterator search (find_map / find): %s' % fmt(addr)[:80], fn=f)
+            continue
         ctx.check(R, ok, 'hit-condition', 'a hit must return the address stored in the very cell that is occupied and whose node equals the probe: %s' % fmt(addr)[:100], fn=f)
     if n == 0:
         ctx.undecided(R, 'hit-condition', 'no hit path recognised', fn=f)
